@@ -295,11 +295,15 @@ def rule_P1(ctx):
     f = prog.fn("ParticleGibbsSubtreeSampler._correct_weights")
     ex = extract(prog, f, **CI)
     sp = spec(prog, SPEC_CORRECT, f, **CI)
-    same_events(ctx, "P1", "_correct_weights: (corrected weight, particle) pairs", f, ex.calls(".add_particle"), sp.calls(".add_particle"), "add_particle calls")
+    # grafting the subtree and carrying its outliers over commute (normal form: outliers last)
+    from ..termflow import rewrite as _rw, rewrite_events as _rwe
+    from ._premises import outliers_last as _ol
+
+    same_events(ctx, "P1", "_correct_weights: (corrected weight, particle) pairs", f, _rwe(ex.calls(".add_particle"), _ol), _rwe(sp.calls(".add_particle"), _ol), "add_particle calls")
     gs = [e for e in ex.events if e.name == "store_attr" and e.kwargs.get("attr") == "tree"]
     ws = [e for e in sp.events if e.name == "store_attr" and e.kwargs.get("attr") == "tree"]
-    same_events(ctx, "P1", "_correct_weights: particle.tree := copy of the remainder + subtree under the recorded parent + its outliers, refreshed", f, gs, ws, "p.tree = full tree")
-    same(ctx, "P1", "_correct_weights returns the new swarm", f, ex.result, sp.result, "returned swarm")
+    same_events(ctx, "P1", "_correct_weights: particle.tree := copy of the remainder + subtree under the recorded parent + its outliers, refreshed", f, _rwe(gs, _ol), _rwe(ws, _ol), "p.tree = full tree")
+    same(ctx, "P1", "_correct_weights returns the new swarm", f, _rw(ex.result, _ol), _rw(sp.result, _ol), "returned swarm")
     g = prog.fn("ParticleGibbsSubtreeSampler.sample_tree")
     om = {"sample_swarm", "_correct_weights", "_sample_tree_from_swarm"}
     ex = extract(prog, g, opaque_self_methods=om, no_inline=["ParticleGibbsTreeSampler.sample_tree"], **CI)
